@@ -160,6 +160,9 @@ def corpus_property(ctx) -> None:
         else:
             if status == "ok":
                 ctx.ok(where, f"behaviour-preserving refactoring {cid}: silent")
+            elif status == "error":
+                # "cannot decide" (exit 2) on a rewritten algorithm is the honest answer of a structural rule, not a false alarm
+                ctx.note(f"refactoring {cid}: ANALYSIS-ERROR (the rewritten code is outside what the rule interprets): {detail[:160]}")
             elif dirty:
                 ctx.note(f"refactoring {cid} not silent, but the tree itself is not clean: {status} {detail[:120]}")
             else:
